@@ -18,6 +18,8 @@ import (
 	"strings"
 	"time"
 
+	"github.com/cenkalti/backoff/v4"
+
 	"github.com/restic/restic/internal/backend"
 	"github.com/restic/restic/internal/data"
 	"github.com/restic/restic/internal/global"
@@ -48,6 +50,7 @@ type c09H struct {
 	idxNo  map[restic.ID]int
 	hNo    map[restic.BlobHandle]int
 	nfile  int
+	nscen  int
 }
 
 type c09Abs struct {
@@ -673,6 +676,11 @@ func (h *c09H) runScenario(kind string, o c09Opt, maxPrefixes int) error {
 		return err
 	}
 	used := h.used()
+	h.nscen++
+	r0Name := fmt.Sprintf("c09_R0_%s_%d", h.name, h.nscen)
+	usedName := fmt.Sprintf("c09_used_%s_%d", h.name, h.nscen)
+	c.Preamble(fmt.Sprintf("Definition %s : C09m.repo := %s.", r0Name, abs0.term()))
+	c.Preamble(fmt.Sprintf("Definition %s : list N := %s.", usedName, c09Ns(used)))
 	// a start state that already fails check (index entry for a missing pack) is only judged by
 	// check after prune has completed (prune repairs it); crashed states are judged by restore then
 	baseline := h.checkOK()
@@ -695,7 +703,7 @@ func (h *c09H) runScenario(kind string, o c09Opt, maxPrefixes int) error {
 		c.Hist(fmt.Sprintf("plan-repack=%v-remove=%v-first=%v-ignore=%v", len(pl.repack) > 0, len(pl.remove) > 0, len(pl.removeFirst) > 0, len(pl.ignore) > 0))
 	}
 	human += fmt.Sprintf(" ops=%d planErr=%v execErr=%v", len(ops), planErr, execErr)
-	term := fmt.Sprintf("C09m.CTrace %s %s %s %s %s", abs0.term(), c09Ns(used), plTerm, coqBool(aborted), coqList(ops))
+	term := fmt.Sprintf("C09m.CTrace %s %s %s %s %s", r0Name, usedName, plTerm, coqBool(aborted), coqList(ops))
 	c.Case("trace-"+kind, len(ops) >= 3, len(ops)+len(abs0.packs), term, human)
 	if execErr != nil && !aborted {
 		// a complete run must succeed on a consistent repository
@@ -788,10 +796,106 @@ func (h *c09H) runScenario(kind string, o c09Opt, maxPrefixes int) error {
 			next = mods[k].String()
 		}
 		c.Hist("crash-before-" + mods[k].Op + "-" + fmt.Sprint(mods[k].Type))
-		c.Case("crash-"+kind, true, k, fmt.Sprintf("C09m.CCrash %s %s %s %s %s", absK.term(), c09Ns(used), coqBool(ck), coqBool(rs), coqBool(rr)),
+		c.Case("crash-"+kind, true, k, fmt.Sprintf("C09m.CCrash %s %s %s %s %s", absK.term(), usedName, coqBool(ck), coqBool(rs), coqBool(rr)),
 			fmt.Sprintf("%s opts=[%s] cut=%d/%d (last done %s, reference next %s) prune err=%v -> check=%v restore=%v rerun=%v", h.name, o, k, n, last, next, cerr != nil, ck, rs, rr))
 	}
+	if err := h.faultRuns(kind, o, s0, mods, r0Name, usedName, maxPrefixes, baseline); err != nil {
+		return err
+	}
 	return c09Sync(final, h.e.repo)
+}
+
+// faultRuns: the same prune from the same state, but exactly one backend modification fails
+// permanently while everything else proceeds (selected by op class and ordinal within the class).
+func (h *c09H) faultRuns(kind string, o c09Opt, s0 string, mods []vop, r0Name, usedName string, maxSel int, baseline bool) error {
+	c := h.c
+	type sel struct {
+		key string
+		ord int
+		pos int
+	}
+	var all []sel
+	cnt := map[string]int{}
+	for i, m := range mods {
+		key := m.Op + "/" + fmt.Sprint(m.Type)
+		all = append(all, sel{key, cnt[key], i})
+		cnt[key]++
+	}
+	pick := all
+	if maxSel > 0 {
+		keep := map[int]bool{}
+		for i, sl := range all {
+			if sl.key == "Save/"+fmt.Sprint(backend.IndexFile) || sl.ord == 0 || sl.ord == cnt[sl.key]-1 && strings.HasPrefix(sl.key, "Remove/"+fmt.Sprint(backend.IndexFile)) {
+				keep[i] = true
+			}
+		}
+		pick = nil
+		for i, sl := range all {
+			if keep[i] && len(pick) < maxSel+2 {
+				pick = append(pick, sl)
+			}
+		}
+	}
+	for _, sl := range pick {
+		if err := c09Sync(s0, h.e.repo); err != nil {
+			return err
+		}
+		h.clearLocks()
+		h.e.rec.Reset()
+		seen := map[string]int{}
+		h.e.rec.OnOp = func(op *vop) error {
+			if !op.modifying() || op.Type == backend.LockFile {
+				return nil
+			}
+			key := op.Op + "/" + fmt.Sprint(op.Type)
+			n := seen[key]
+			seen[key]++
+			if key == sl.key && n == sl.ord {
+				return backoff.Permanent(fmt.Errorf("verif: injected permanent failure"))
+			}
+			return nil
+		}
+		pl, planErr, execErr := h.pruneDirect(o)
+		h.e.rec.OnOp = nil
+		var att []vop
+		for _, op := range h.e.rec.Ops() {
+			if op.modifying() && op.Type != backend.LockFile {
+				att = append(att, op)
+			}
+		}
+		h.e.rec.Reset()
+		h.clearLocks()
+		ops, obs, err := h.trace(att)
+		if err != nil {
+			return err
+		}
+		nfail := 0
+		ftr := make([]string, len(ops))
+		for i := range ops {
+			ftr[i] = coqTuple(ops[i], coqBool(!att[i].Err))
+			if att[i].Err {
+				nfail++
+			}
+		}
+		aborted := planErr != nil
+		plTerm := "(mkPl [] [] [] [] [])"
+		if pl != nil {
+			rm := append(append([]int{}, pl.remove...), pl.repack...)
+			excl := append(append([]int{}, rm...), pl.ignore...)
+			plTerm = fmt.Sprintf("(mkPl %s %s %s %s %s)", c09Ns(pl.removeFirst), c09Ns(rm), c09Ns(excl), c09Ns(pl.keep), c09Ns(obs))
+		}
+		reported := planErr != nil || execErr != nil
+		ck, rs := (!baseline && reported) || h.checkOK(), h.restoreOK()
+		_, _, rerr := h.e.cli(append([]string{"prune"}, o.flags()...)...)
+		h.clearLocks()
+		rr := rerr == nil && h.checkOK()
+		c.Hist("fault-" + sl.key)
+		c.Case("fault-"+kind, true, sl.pos, fmt.Sprintf("C09m.CFault %s %s %s %s %s %s %s %s %s", r0Name, usedName, plTerm, coqBool(aborted), coqList(ftr),
+			coqBool(reported), coqBool(ck), coqBool(rs), coqBool(rr)),
+			fmt.Sprintf("%s opts=[%s] failing %s #%d (reference position %d/%d): attempted=%d failed=%d prune reported error=%v -> check=%v restore=%v rerun=%v",
+				h.name, o, sl.key, sl.ord, sl.pos, len(mods), len(att), nfail, reported, ck, rs, rr))
+	}
+	return nil
 }
 
 // hideIndexes moves the index files not in keep away and returns a function that brings them back.
